@@ -14,12 +14,12 @@ import time
 import uuid
 import warnings
 
-from .. import tlc, valuestream as vs
+from .. import carriers, tlc, valuestream as vs
 from ..core import Ctx, Outcome, Violation
 from ..terms import clear_typelib_caches, project
 
 UTC = datetime.timezone.utc
-CARRIERS = ["str", "bytes", "bytearray", "mvb", "mvba"]
+CARRIERS = carriers.CARRIERS
 DUR = re.compile(r"^(?P<neg>-)?P(?:(?P<y>\d+)Y)?(?:(?P<mo>\d+)M)?(?:(?P<w>\d+)W)?(?:(?P<d>\d+)D)?"
                  r"(?P<T>T(?:(?P<h>\d+)H)?(?:(?P<mi>\d+)M)?(?:(?P<s>\d+)(?:\.(?P<f>\d{1,6}))?S)?)?$")
 
@@ -40,9 +40,7 @@ class Tag(str, enum.Enum):
 
 
 def carry(c, s):
-    b = s.encode() if c != "str" else None
-    return {"str": lambda: s, "bytes": lambda: b, "bytearray": lambda: bytearray(b), "mvb": lambda: memoryview(b),
-            "mvba": lambda: memoryview(bytearray(b))}[c]()
+    return carriers.carry(c, s)
 
 
 def tz(minutes):
@@ -89,8 +87,8 @@ def pools(rng, nrand):
         "Fraction": (fractions.Fraction, [fractions.Fraction(1, 3), fractions.Fraction(-7, 2), fractions.Fraction(5), fractions.Fraction(0), fractions.Fraction(3, 2),
                                          fractions.Fraction(10**20, 3)] + draw(st.fractions(), nrand), str),
         "UUID": (uuid.UUID, [uuid.UUID(int=0), uuid.UUID(int=2**128 - 1), uuid.UUID("12345678-1234-5678-1234-567812345678")] + draw(st.uuids(), nrand), str),
-        "PurePosixPath": (pathlib.PurePosixPath, [pathlib.PurePosixPath(p) for p in ("a/b", "/abs/x", ".", "1", "a b/c", "/", "../x", "1.5", "null", "[1]")], str),
-        "Path": (pathlib.Path, [pathlib.Path(p) for p in ("a/b", "/abs/x", ".", "7")], str),
+        "PurePosixPath": (pathlib.PurePosixPath, [pathlib.PurePosixPath(p) for p in ("a/b", "/abs/x", ".", "1", "a b/c", "/", "../x", "1.5", "null", "[1]", "notes ", " draft/x.txt", "a\nb", "\tx")], str),
+        "Path": (pathlib.Path, [pathlib.Path(p) for p in ("a/b", "/abs/x", ".", "7", "notes ", " draft.txt", "x\n")], str),
         "Color": (Color, list(Color), None), "Level": (Level, list(Level), None), "Tag": (Tag, list(Tag), None),
         "date": (datetime.date, [datetime.date(1970, 1, 1), datetime.date(2020, 2, 29), datetime.date.min, datetime.date.max, datetime.date(1969, 12, 31),
                                  datetime.date(1, 1, 2), datetime.date(2038, 1, 19)] + draw(st.dates(), nrand), lambda v: v.isoformat()),
@@ -255,7 +253,7 @@ def run(ctx: Ctx) -> Outcome:
     cov = {"states": res.distinct, "transitions": res.generated,
            "traces_validated_against_impl": len(events), "evaluations": len(events), "distinct_nontrivial": len(nontrivial),
            "rule": "model: duration algebra (writer tokens -> Meaning = value, Negate involutive) over an 18 x 8 x 5 boundary grid; real: per scalar "
-                   "kind boundary values + seeded Hypothesis values: Python's canonical text in 5 carriers parses back (value, class, offset, "
+                   "kind boundary values + seeded Hypothesis values: Python's canonical text in 8 carriers parses back (value, class, offset, "
                    "microseconds); marshalling emits Python's text and the stdlib parser reads it back; durations are tokenised by an "
                    "independent regex and judged by Meaning/WellFormed; numbers -> temporals against datetime.fromtimestamp(x, UTC); temporals "
                    "-> int/float/str/bytes; every other value after warming the memos with an equal twin; all under TZ=UTC and TZ=XXX-5:30",
